@@ -4,7 +4,7 @@
    C18_close_sqrt_real gives the reading over the reals. *)
 From Coq Require Import QArith Qabs Reals Qreals.
 From EsVerif.Common Require Import Base.
-From EsVerif.C18 Require Import Model Spec QLemmas MomProofs MedianProofs ClipProofs InterpProofs CorProofs.
+From EsVerif.C18 Require Import Model Spec QLemmas MomProofs MedianProofs ClipProofs InterpProofs CorProofs Gen GenProofs.
 Open Scope Q_scope.
 
 (* ------------------------------------------------------------------ weighted moments *)
@@ -243,6 +243,119 @@ Proof.
   split; [exact sigma_clip_check_sound|]. split; [exact interp_check_sound|].
   split; [exact gs_col_check_sound|]. split; [exact cov2cor_check_sound|exact mat_close_b_sound].
 Qed.
+
+(* ------------------------------------------------------------------ tie to the source text *)
+(* Gen.v is printed from esutil/stat/util.py of the tree under check on every run
+   (harness/props/c18_translate.py).  The theorems below say that the model the theorems above are
+   about consists of exactly the formulas, comparisons, defaults and index arithmetic that the
+   source contains (gen_* names); they are re-checked whenever that text changes. *)
+
+(* wmom: the terms under .sum(axis=0), the final divisions, the two error formulas (squared) *)
+Theorem C18_gen_wmom_mean : forall x w ce sd,
+  m_mean (wmom1 x w None ce sd) == gen_wmom_mean_fin (Sum (map2 gen_wmom_mean_term w x)) (Sum w).
+Proof. exact gen_wmom_mean. Qed.
+
+Theorem C18_gen_wmom_err : forall x w im sd,
+  m_err2 (wmom1 x w im true sd) == gen_wmom_err2_calc (Sum (map2 (gen_wmom_err2_term (mref x w im)) w x)) (Sum w)
+  /\ m_err2 (wmom1 x w im false sd) == gen_wmom_err2_default (Sum w)
+  /\ gen_wmom_calcerr_default = false /\ gen_wmom_sdev_default = false.
+Proof.
+  intros x w im sd. split; [apply gen_wmom_err_calc|]. split; [apply gen_wmom_err_default|]. exact gen_wmom_defaults.
+Qed.
+
+Theorem C18_gen_wmom_sdev : forall x w im ce,
+  exists v, m_var (wmom1 x w im ce true) = Some v
+            /\ v == gen_wmom_var_fin (Sum (map2 (gen_wmom_var_term (mref x w im)) w x)) (Sum w).
+Proof. exact gen_wmom_var. Qed.
+
+(* wmedian: initial value, half total, loop test (strict) and update of the subtract-until loop *)
+Theorem C18_gen_wmedian_loop :
+  (forall l, wmedian_pairs l =
+     match isort_p l with
+     | [] => Err EIndex
+     | (x0, w0) :: t => wm_loop t x0 (gen_wm_init (qsum (map snd l)) w0) (gen_wm_half (qsum (map snd l)))
+     end)
+  /\ (forall rest cur sum h, wm_loop rest cur sum h =
+        if gen_wm_continue sum h
+        then match rest with [] => Err EIndex | (xk, wk) :: t => wm_loop t xk (gen_wm_step sum wk) h end
+        else Ok cur).
+Proof. split; [exact gen_wm_start|exact gen_wm_loop]. Qed.
+
+(* sigma_clip: the model's decision on squares is the source's comparison |x - m| < nsig * s with
+   s = sqrt(var); number of rounds; the two stop tests in the source's order; which statistics *)
+Theorem C18_gen_clip_decision : forall nsig st s p,
+  0 <= nsig -> 0 <= s -> s * s == c_var st ->
+  within nsig st p = gen_clip_keep nsig (c_mean st) s (p_x p).
+Proof. exact gen_within. Qed.
+
+Theorem C18_gen_clip_loop :
+  (forall niter, Z.to_nat (gen_sc_rounds niter) = Z.to_nat niter)
+  /\ (forall f wtd nsig cur st, sc_loop (S f) wtd nsig cur st =
+        let kept := filter (within nsig st) cur in
+        if gen_sc_stop_empty (Z.of_nat (length kept)) then (cur, st)
+        else if gen_sc_stop_same (Z.of_nat (length kept)) (Z.of_nat (length cur)) then (cur, st)
+        else sc_loop f wtd nsig kept (sc_stats wtd kept))
+  /\ (forall cur, sc_stats true cur =
+        let r := wmom1 (map p_x cur) (map p_w cur) None gen_scstats_calcerr gen_scstats_sdev in
+        {| c_mean := m_mean r; c_err2 := m_err2 r; c_var := match m_var r with Some v => v | None => 0 end |})
+  /\ (forall cur, c_err2 (sc_stats false cur) = gen_plain_err2 (c_var (sc_stats false cur)) (qlen cur)).
+Proof.
+  split; [exact gen_sc_rounds_ok|]. split; [exact gen_sc_loop_step|].
+  split; [exact gen_sc_stats_weighted|exact gen_sc_stats_plain].
+Qed.
+
+(* interplin: searchsorted - 1 with the two clamps, the neighbour index, the returned formula *)
+Theorem C18_gen_interplin :
+  (forall x u, interp_index x u = gen_interp_index (Z.of_nat (length x)) (searchsorted x u))
+  /\ (forall k, Z.to_nat (gen_interp_next (Z.of_nat k)) = S k)
+  /\ (forall x0 v0 x1 v1 u, line x0 v0 x1 v1 u = gen_interp_formula x0 v0 x1 v1 u).
+Proof. split; [exact gen_interp_index_ok|]. split; [exact gen_interp_next_ok|exact gen_interp_formula_ok]. Qed.
+
+(* get_stats: defaults of sigma_clip reached through **kw; keywords forced in the weighted branch;
+   err = std/sqrt(N) in the plain branch *)
+Theorem C18_gen_get_stats :
+  (forall x weights nsig niter, (nsig <> None \/ niter <> None) ->
+     get_stats (V1 x) weights nsig niter =
+     match sigma_clip (V1 x) weights (match niter with Some k => k | None => gen_sc_niter_default end)
+                      (match nsig with Some s => s | None => gen_sc_nsig_default end) with
+     | Ok r => Ok {| g_min := S0 (qmin_list x); g_max := S0 (qmax_list x); g_mean := S0 (sc_mean r);
+                     g_var := S0 (sc_var r); g_err2 := S0 (sc_err2 r) |}
+     | Err e => Err e
+     end)
+  /\ (forall x w, length w = length x ->
+        get_stats (V1 x) (Some (V1 w)) None None =
+        let r := wmom1 x w None gen_gs_calcerr gen_gs_sdev in
+        Ok {| g_min := S0 (qmin_list x); g_max := S0 (qmax_list x); g_mean := S0 (m_mean r);
+              g_var := S0 (match m_var r with Some v => v | None => 0 end); g_err2 := S0 (m_err2 r) |})
+  /\ (forall x, exists g, get_stats (V1 x) None None None = Ok g
+        /\ exists m e2 v, g_mean g = S0 m /\ g_err2 g = S0 e2 /\ g_var g = S0 v
+           /\ e2 = gen_gs_plain_err2 v (qlen x)).
+Proof.
+  split; [exact gen_get_stats_clip|]. split; [exact gen_get_stats_weighted|exact gen_get_stats_plain].
+Qed.
+
+(* cov2cor / cor2cov: the diagonal test, numerator and squared denominator, the product *)
+Theorem C18_gen_cov :
+  (forall cov, rect cov (length cov) = true ->
+     (forall i, (i < length cov)%nat -> gen_cov_diag_bad (mget cov i i) = false) ->
+     exists m, cov2cor cov = Ok m
+       /\ forall i j, (i < length cov)%nat -> (j < length cov)%nat ->
+            nth j (nth i m []) (0, 0)
+            = (gen_cor_num (mget cov i j) (mget cov i i) (mget cov j j),
+               gen_cor_den2 (mget cov i j) (mget cov i i) (mget cov j j)))
+  /\ (forall c, Qlt_bool 0 c = negb (gen_cov_diag_bad c))
+  /\ (forall cor d, rect cor (length cor) = true -> length d = length cor ->
+        exists m, cor2cov cor d = Ok m
+          /\ forall i j, (i < length cor)%nat -> (j < length cor)%nat ->
+               mget m i j = gen_cor2cov_entry (mget cor i j) (nth i d 0) (nth j d 0)).
+Proof.
+  split; [exact gen_cov2cor_entries|]. split; [exact gen_cov_diag_rule|exact gen_cor2cov_entries].
+Qed.
+
+(* boxcar_average: window weight 1/N and the slice offset N-1 *)
+Theorem C18_gen_boxcar : forall N,
+  gen_boxcar_skip N = (N - 1)%Z /\ gen_boxcar_weight (inject_Z N) == 1 / inject_Z N.
+Proof. exact gen_boxcar_consts. Qed.
 
 (* ------------------------------------------------------------------ non-vacuity *)
 Fixpoint forallb2_eq (a b : list Q) : bool :=
